@@ -78,9 +78,10 @@ def no_path_query(cfg, script, label, src, dst, avoid, expect="unsat", kind="obl
     N = len(cfg.nodes)
     W = max(1, N.bit_length())
     pfx = re.sub(r"\W", "_", label)[:40] + "_%d" % len(script.queries)
-    src = sorted(set(src))
     dst = set(dst)
-    avoid = set(avoid) - set(src)
+    avoid = set(avoid)
+    # a path that starts in a block whose own event is to be avoided has already passed that event
+    src = sorted(set(src) - (avoid - dst))
     if not src or not dst:
         script.query(label, ["false"], expect, kind)
         return {}
